@@ -172,6 +172,7 @@ func cmdRun(args []string) {
 	budget := fs.Float64("budget", 0, "wall budget (s)")
 	validate := fs.Int("validate", 0, "paths to validate natively")
 	stepcap := fs.Int("stepcap", 0, "per-path step cap")
+	bg := fs.String("bg", "", "comma-separated background loops to start as threads (backgroundFlush,compactionWorker,...)")
 	conccap := fs.Int("conccap", 0, "cap on the number of values a symbolic length/index may be forked into")
 	tracePath := fs.String("trace", "", "replay file: re-execute that one path with a trace of scheduling points")
 	fs.Parse(args)
@@ -199,6 +200,12 @@ func cmdRun(args []string) {
 		return
 	}
 	o := &Opts{Workers: *workers, Preempt: *pbound, MaxZeros: *maxZeros, Thorough: *thorough, MaxPaths: *maxPaths, BudgetS: *budget, Verbose: true, Samples: 3, Validate: *validate, StepCap: *stepcap, ConcCap: *conccap}
+	if *bg != "" {
+		o.Background = map[string]bool{}
+		for _, b := range strings.Split(*bg, ",") {
+			o.Background[b] = true
+		}
+	}
 	res := explore(l.M, fn, o)
 	fmt.Printf("paths=%d aborted=%v steps=%d asserts=%d queries=%d (sat %d unsat %d unknown %d) solver(cpu)=%.1fs wall=%.1fs (%.0f steps/s) exhausted=%v remaining=%d\n",
 		res.Paths, res.Aborted, res.Steps, res.Asserts, res.Queries, res.QSat, res.QUnsat, res.QUnknown, res.SolverS, res.WallS, float64(res.Steps)/res.WallS, res.Exhausted, res.Remaining)
